@@ -216,7 +216,13 @@ BINARY = ["atan2", "hypot", "heaviside"]
 LITERALS = ["2", "3", "0.5", "1.5", "0.25", "1e-3", "2.5e2", "10", "pi", "7", "0.1", "1.25e1"]
 PROVOKING = ["abs(exp({a}))", "sqrt(({a})**2)", "log(exp({a}))", "({a})/({a})", "exp(log({a}) + log({b}))", "sin({a})**2 + cos({a})**2",
              "(({a}) + ({b}))**2 - ({a})**2", "({a})*({b})/({a})", "tanh({a}) - sinh({a})/cosh({a})", "exp({a})*exp(-({a}))",
-             "(({a})**2)**0.5", "log(({a})**2)", "sqrt({a})*sqrt({a})", "({a})**2*({a})**-1", "cos({a})*tan({a})"]
+             "(({a})**2)**0.5", "log(({a})**2)", "sqrt({a})*sqrt({a})", "({a})**2*({a})**-1", "cos({a})*tan({a})",
+             # a function inside its own inverse (identity only on the principal branch) and the reverse
+             "asin(sin({a}))", "acos(cos({a}))", "atan(tan({a}))", "acosh(cosh({a}))", "asinh(sinh({a}))", "atanh(tanh({a}))",
+             "sin(asin({a}))", "cos(acos({a}))", "tan(atan({a}))", "cosh(acosh({a}))", "atan2(sin({a}), cos({a}))", "exp(log(abs({a})))",
+             # roots and absolute values that simplification likes to reorder
+             "1/sqrt(abs({a}))", "abs({a})**-0.5", "sqrt(abs(1/({a})))", "abs({a})**1.5/abs({a})", "log(abs({a})**3)", "sqrt(({a})**4)",
+             "(({a})**3)**(1/3)", "abs(({a})**3)", "sqrt(({a})**2 * ({b})**2)", "log(({a})*({b})) - log({a})", "(({a})*({b}))**0.5 / ({a})**0.5"]
 
 
 def gen_expression(rng, variables, depth=3, consts=(), funcs=(), allowed_unary=None):
